@@ -57,6 +57,7 @@ theorem token_debit_needs_subject (st : Token.State) (c : Token.Ctx) (op : Token
       simp only [tokenSubject, Option.some.injEq] at hs; subst hs
       exact (C12.burnFrom_exact _ _ _ _ _ _ _ hap).1
     | transferOwnership n => simp [tokenSubject] at hs
+    | upgradeMigrate => simp [tokenSubject] at hs
 
 /-- a delegated spend additionally needs an allowance granted BY THE HOLDER: without one (never granted or expired) a
     positive delegated transfer or burn fails even with the spender's authorisation -/
@@ -231,6 +232,7 @@ theorem its_refused_unchanged (H S : Bytes → Bytes) (k : Its.Consts) (st : Its
         rw [if_neg hn] at h
         cases h
     · rfl
+  | upgradeMigrate au => exact Its.step_upgradeMigrate_fst H S k st au
 
 /-! ### operators contract and the example application -/
 
